@@ -84,9 +84,10 @@ class Registry:
                         rec = [ast.literal_eval(a) for a in d.args]
                 self.specfns[node.name] = dict(node=node, recursive=rec)
 
-    def lemma(self, name, params, requires=None, ensures=None, induct=None, use=None):
+    def lemma(self, name, params, requires=None, ensures=None, induct=None, use=None, mention=None):
+        # mention: terms evaluated before the proof so that the per-term axiom instances of sqrt / log ... exist for them
         self.lemmas[name] = dict(name=name, params=params, requires=requires or [], ensures=ensures or [],
-                                 induct=induct, use=use or [])
+                                 induct=induct, use=use or [], mention=mention or [])
 
     def relational(self, name, **kw):
         kw["name"] = name
